@@ -67,8 +67,10 @@ def ent(e):
     return (e[0], e[1]) if e else None
 
 
-def render(st, seed=0):
-    """-> (files {name: text}, docs {name: Doc}).  Token entities come from the spec state (st['res'])."""
+def render(st, seed=0, uniform=False):
+    """-> (files {name: text}, docs {name: Doc}).  Token entities come from the spec state (st['res']).
+    uniform=True: every name is referenced by the same statement whatever it resolves to, so that a file's
+    text depends only on that file's own record (used for edit histories)."""
     rnd = random.Random(seed)
     res = {}
     for k, v in st["res"].items():
@@ -87,7 +89,9 @@ def render(st, seed=0):
     def ref_lines(d, site, indent):
         for n in ("x", "y", "lx"):
             r = res[(site, n)]
-            if len(r) == 1:
+            if uniform:
+                d.add(indent + "print *, %s" % n, [(n, r[0] if len(r) == 1 else None, "ref" if len(r) == 1 else ("probe" if len(r) == 0 else "ambiguous"), 0)])
+            elif len(r) == 1:
                 t = TEMPLATES[rnd.randrange(len(TEMPLATES))].format(n=n)
                 k = len(ident_positions(t, n))
                 d.add(indent + t, [(n, r[0], "ref", i) for i in range(k)])
@@ -227,7 +231,7 @@ def loc_of(res, d):
 
 # ---------------------------------------------------------------------------
 def check_c05(job):
-    st, seed = job
+    st, seed = job[0], job[1]
     files, docs = render(st, seed)
     d = adapter.mkws(files)
     bad = []
@@ -274,6 +278,32 @@ def check_c05(job):
                     break
             for k2 in list(stats):
                 pass
+        # history: the same questions after an UNSAVED edit of m2 that changes what it uses / re-exports;
+        # p's and q's text is unchanged, the answers must follow the current buffers
+        if len(job) > 2 and job[2] is not None and not bad:
+            st2 = job[2]
+            f1, d1 = render(st, seed, uniform=True)
+            f2, d2 = render(st2, seed, uniform=True)
+            if f1["p.f90"] == f2["p.f90"] and f1["m1.f90"] == f2["m1.f90"]:
+                for fn, tx in f1.items():
+                    adapter.notify(s, c, "textDocument/didChange", {"textDocument": {"uri": adapter.uri(d, fn)}, "contentChanges": [{"text": tx}]})
+                    adapter.notify(s, c, "textDocument/didSave", {"textDocument": {"uri": adapter.uri(d, fn)}}) if False else None
+                for fn, tx in f1.items():
+                    with open(os.path.join(d, fn), "w") as fh:
+                        fh.write(tx)
+                    adapter.notify(s, c, "textDocument/didSave", {"textDocument": {"uri": adapter.uri(d, fn)}})
+                toks1 = [t for t in all_tokens(d1) if t["file"] == "p.f90" and t["role"] in ("ref", "probe")]
+                for t in toks1:   # first round of lookups (fills whatever the server caches)
+                    adapter.request(s, c, "textDocument/definition", adapter.posparams(d, t["file"], t["line"], t["sc"]))
+                adapter.notify(s, c, "textDocument/didChange", {"textDocument": {"uri": adapter.uri(d, "m2.f90")}, "contentChanges": [{"text": f2["m2.f90"]}]})
+                for t in [t for t in all_tokens(d2) if t["file"] == "p.f90" and t["role"] == "ref"]:
+                    got = loc_of(adapter.result_of(adapter.request(s, c, "textDocument/definition", adapter.posparams(d, t["file"], t["line"], t["sc"]))), d)
+                    dt = decl_token(d2, t["ent"])
+                    exp = (dt["file"], dt["line"], dt["sc"], dt["ec"])
+                    if got is None or got[:2] != exp[:2]:
+                        bad.append(({"c05:staleAfterUnsavedEditElsewhere", "m2.use1:%s->%s" % (st["m2"]["use1"], st2["m2"]["use1"])},
+                                    {"token": t, "expected": exp, "observed": got, "m2_after": f2["m2.f90"]}))
+                        break
     finally:
         adapter.rmws(d)
     fails = {}
@@ -493,12 +523,31 @@ def run(pid, fn, tier, seed, assumptions):
     states = list(tlc.dump_states("NameRes", "NameRes_MC.cfg", info=info, timeout=1800))
     ck.add_tlc("NameRes_Gen", info["result"])
     rnd = random.Random(seed)
+    all_states = list(states)
     if tier == "quick":
         rnd.shuffle(states)
         states = states[:2500]
     else:
         ck.note("exhaustive", True)
     jobs = [(s, seed + i) for i, s in enumerate(states)]
+    if pid == "C05":
+        # partner universe: same m1, p, q; m2 differs only in its USE clause (for the unsaved-edit history)
+        def key(s_, use1=None):
+            m2 = dict(s_["m2"])
+            if use1 is not None:
+                m2["use1"] = use1
+            return json.dumps([s_["m1"], m2, s_["p"], s_["q"]], sort_keys=True, default=list)
+        index = {key(s_): s_ for s_ in all_states}
+        jobs = []
+        for i, s_ in enumerate(states):
+            partner = None
+            for u in ("all", "none", "onlyx", "onlylx", "renlx"):
+                if u != s_["m2"]["use1"] and key(s_, u) in index:
+                    cand = index[key(s_, u)]
+                    if not universe_tags(cand) and not universe_tags(s_):
+                        partner = cand
+                        break
+            jobs.append((s_, seed + i, partner))
     agg = {}
     for i, status, val in par.pmap(fn, jobs, item_timeout=180):
         ck.count(key=json.dumps({k: states[i][k] for k in ("m1", "m2", "p", "q")}, sort_keys=True, default=str))
